@@ -1,7 +1,7 @@
 SPECIFICATION Spec
 CONSTANTS Onsets = {0, 1, 2}
           Durs = {1, 3}
-          Pitches = {0, 40, 80}
+          Pitches = {0, 40}
           N = 2
           OnTols <- OnTolsT
           Ratios <- RatiosT
